@@ -88,7 +88,7 @@ func genNumber(r *rand.Rand, o ValOpts) cty.Value {
 		return cty.NumberVal(f)
 	default:
 		if o.NoInf {
-			return cty.Zero
+			return cty.NumberIntVal(0)
 		}
 		switch r.Intn(4) {
 		case 0:
@@ -98,7 +98,7 @@ func genNumber(r *rand.Rand, o ValOpts) cty.Value {
 		case 2:
 			return cty.NumberVal(new(big.Float).Neg(new(big.Float).SetInt64(0))) // -0
 		default:
-			return cty.Zero
+			return cty.NumberIntVal(0)
 		}
 	}
 }
